@@ -14,11 +14,56 @@ NOTES = ('Every check is ./vcheck <id> --tier quick|thorough (cwd /verif). Exit 
          '1 = counterexample found and replayed against the real code (VIOLATION line); 2 = broken/inconclusive (never reported as success). '
          'See DESIGN.md.')
 _T = 'bounded symbolic execution of the real functions (clang IR -> ir2c -> CBMC), solver verdict over all inputs within the stated bounds'
+_N = 'Trusted base: clang++-14 lowering, tools/ir2c.py (differentially tested against the g++ build on every run), CBMC 6.11 + SAT back ends, allocation model (fixed-size chunks, allocation never fails), harness preconditions listed per obligation in the evidence. '
 CLAIMED = {
+ 'C01': {
+  'text': 'Solver verdicts on the value-coding kernels of the round trip: array zig-zag, delta predictor + wrap transform encoder->stream->decoder for ALL int32 inputs, parallelogram predictor recompute lemma and monolithic encoder->decoder round trip over an arbitrary in-range corner table. Whole-geometry round trips (connectivity, traversal, option dispatch) are outside the claim.',
+  'design_ref': 'DESIGN.md 3/C01', 'technique': _T,
+  'note': _N + 'Bounds: <=4 entries, <=2 components, 2 faces. Composition (prediction + transform + entropy coding => values survive) is argued in DESIGN.md, not machine checked.'},
+ 'C02': {
+  'text': 'UB-instrumented bounded model checking (pointer/bounds/overflow/shift checks on every load, store and arithmetic instruction of the real code) of the parsing primitives on arbitrary bytes with symbolic length, from an arbitrary buffer position: DecoderBuffer Decode/Peek/bit mode, DecodeVarint all widths. Decoders built on corner tables / point clouds are outside the claim.',
+  'design_ref': 'DESIGN.md 3/C02', 'technique': _T + '; non-speculating IR flavour with UB assertions',
+  'note': _N + 'Bounds: 8..12 input bytes, recursion/loops unwound with unwinding assertions.'},
+ 'C03': {
+  'text': 'The real MeshSequentialDecoder::DecodeConnectivity is executed symbolically on a real Mesh object for every 6-byte input: success implies every stored face index < num_points. (Found and, after the fix, proves the absence of the missing-range-check defect.)',
+  'design_ref': 'DESIGN.md 3/C03', 'technique': _T,
+  'note': _N + 'Bounds: 6 input bytes, <=1 face, raw-index branches; compressed-index path cut. Edgebreaker/kd-tree output validity outside the claim.'},
+ 'C04': {
+  'text': 'For each (q, range) of a grid the solver proves the half-step error bound for EVERY float32 value in [0,range] on the real Quantizer/Dequantizer code (IEEE semantics bit-blasted).',
+  'design_ref': 'DESIGN.md 3/C04', 'technique': _T + '; floating point bit-blasted by CBMC (kissat)',
+  'note': _N + 'Bounds: concrete (q, range) pairs; allowance 4 ulp of the range.'},
+ 'C07': {
+  'text': 'Integer side of octahedral normal quantization proved for symbolic q in 2..30 (coordinates inside the q-bit square, canonical); float->octahedral mapping proved for every finite float32 vector for selected q. The angular error bound itself needs real trigonometry and is outside the claim.',
+  'design_ref': 'DESIGN.md 3/C07', 'technique': _T,
+  'note': _N + 'Bounds: q concrete for the float obligations.'},
+ 'C08': {
+  'text': 'rANS kernels: final-state serialisation for all states and all precisions, look-up-table correctness, probability-table encode->decode for any valid table, k-symbol end-to-end at a small precision (same template source).',
+  'design_ref': 'DESIGN.md 3/C08', 'technique': _T,
+  'note': _N + 'Bounds: <=4 symbols in a table, k<=3 symbols end to end at precision 2^4; LUT build cut out of Create and proved separately.'},
+ 'C10': {
+  'text': 'Object-level: the transform description attached to an attribute is bit-identical to the decoder\'s parameters, and applying the re-read description gives bit-identical floats to the ordinary inverse transform (float ops abstracted as uninterpreted functions, sound for equalities).',
+  'design_ref': 'DESIGN.md 3/C10', 'technique': _T + '; float arithmetic as uninterpreted functions',
+  'note': _N + 'Bounds: 1 value, <=3 components. Option plumbing of Decoder::SetSkipAttributeTransform outside the claim.'},
+ 'C12': {
+  'text': '2-safety proof on the real AttributeQuantizationTransform + PointAttribute objects: the decoded value of a point is independent of the other point, for every q and all float inputs; explicit parameters are stored verbatim.',
+  'design_ref': 'DESIGN.md 3/C12', 'technique': _T + '; self-composition, float arithmetic as uninterpreted functions',
+  'note': _N + 'Bounds: 2 points x 2 components. That the encoders call SetParameters when the option is set is outside the claim.'},
  'C16': {
-  'text': 'For every obligation the SAT solver proves the round-trip assertion for ALL inputs inside the stated bound (e.g. every int32 (min,max,orig,pred) 4-tuple for the wrap transform), on code regenerated from /repo each run; no sampling.',
+  'text': 'For every obligation the SAT solver proves the round-trip assertion for ALL inputs inside the stated bound (every int32 (min,max,orig,pred) 4-tuple for the wrap transform; every canonical pair for each q for the octahedral transforms), on code regenerated from /repo each run.',
   'design_ref': 'DESIGN.md 3/C16', 'technique': _T,
-  'note': 'Trusted: clang lowering, ir2c translator (differentially tested each run), CBMC+SAT. Bounds: component count <= 3; octahedral transforms per concrete quantization bits q.'},
+  'note': _N + 'Bounds: components <= 3; octahedral transforms per concrete q (quick: 6 values, thorough: all 2..30).'},
+ 'C17': {
+  'text': 'Every primitive writer/reader pair proved an exact inverse for all values of its width: zig-zag, varints of all 6 types, scalars, bit regions, direct bit coder with symbolic widths, rABS step from any state (inductive), rANS bit coder.',
+  'design_ref': 'DESIGN.md 3/C17', 'technique': _T,
+  'note': _N + 'Bounds: bit regions with 2 fields of concrete widths; rABS per probability value; adaptive/folded/symbol bit coders not yet covered.'},
+ 'C18': {
+  'text': 'The operator-new model asserts at every allocation that the size is bounded by a fixed multiple of the (symbolic) stream length; proved for the guards of DirectBitDecoder, RAnsBitDecoder and RAnsSymbolDecoder::Create.',
+  'design_ref': 'DESIGN.md 3/C18', 'technique': _T + '; allocation-size assertion inside the operator-new model',
+  'note': _N + 'Bounds: 48-byte backing buffer with symbolic length; guards inside Edgebreaker/prediction-scheme decoders outside the claim.'},
+ 'C19': {
+  'text': 'Sufficient condition: every function reachable from every harness entry of the other properties is scanned for references to mutable globals / local statics; reachability of any reference is decided by CBMC. No shared mutable state => no race or cross-talk under any interleaving.',
+  'design_ref': 'DESIGN.md 3/C19', 'technique': 'static scan of the regenerated LLVM IR + CBMC reachability of every mutable-global reference',
+  'note': _N + 'Covers only the units encoded by the other checks; whole Encoder/Decoder objects and Options are outside the claim.'},
 }
 _WIP = 'check not built yet in this revision (work in progress, see DESIGN.md section 3 for the planned obligations)'
 NOT_APPLICABLE = {p: _WIP for p in ['C%02d' % i for i in range(1, 21)]}
